@@ -1714,3 +1714,11 @@ func lemmaSliceConcat(seq Sequence, c int) Sequence {
 //@   assigns nothing
 //@   loop 1: invariant fresh(keys) && len(keys) == len(props) && (forall k in 0..i: keys[k] == props[k][0])
 //@   loop 1: decreases len(props) - i
+
+// The table order: source features first, then by location.
+//@ func (ff FeatureSlice) Less(i, j int) (r bool)
+//@   prop C19
+//@   requires 0 <= i && i < len(ff) && 0 <= j && j < len(ff)
+//@   ensures r <==> ((ff[i].Key == "source" && ff[j].Key != "source") ||
+//@      ((ff[i].Key == "source") == (ff[j].Key == "source") && locLess(ff[i].Loc, ff[j].Loc)))
+//@   assigns nothing
